@@ -1,2 +1,2 @@
-import NipyVerif.Model.C06
-def main : IO Unit := NipyVerif.driverLoop NipyVerif.C06.run
+import NipyVerif.Model.C06B
+def main : IO Unit := NipyVerif.driverLoop NipyVerif.C06.runB
